@@ -22,7 +22,7 @@ from .common.model import Model, nats
 from .common.report import Part, guarded
 
 DELIM = '/'
-PARTS = ['a', 'b', 'A', 'c d', '%', '*', 'x%y', 'q"t', 'b\\s', 'n\nl', 'r\rc', 'é', '中文', '&', 'a&b', 'inbox', 'INBOX', 'Inbox', 'z' * 30, 'L' * 300, 'cur', 'new', 'tmp', 'subscriptions', 'dovecot-uidlist', 'dovecot.sieve', 'dovecot-keywords', 'maildirfolder', 'subscriptions.lock', '\u0131nbox', '~', '#n', 't\tb', '.', '..', '', '.h', 'h.', 'a.b']
+PARTS = ['a', 'b', 'A', 'c d', '%', '*', 'x%y', 'q"t', 'b\\s', 'n\nl', 'r\rc', 'é', '中文', '&', 'a&b', 'é&b', '中&', 't\t&x', '&é', 'inbox', 'INBOX', 'Inbox', 'z' * 30, 'L' * 300, 'cur', 'new', 'tmp', 'subscriptions', 'dovecot-uidlist', 'dovecot.sieve', 'dovecot-keywords', 'maildirfolder', 'subscriptions.lock', '\u0131nbox', '~', '#n', 't\tb', '.', '..', '', '.h', 'h.', 'a.b']
 PATTERNS = ['*/%', '*%', 'a*%', '%/*/%', '*/%/%', '%*/%', '*/%b', '*', '%', '%/%', 'a*', '*b', 'a/%', 'a/*', '%/b', 'INBOX', 'inbox', 'inbox*', 'Inb%', '*/*', 'a', 'a/b', '%%', '**', '*%*', 'a%b', '', 'n\nl', '*\n*', 'é', '%é%', 'x%y', '&', 'q"t']
 RULE = ('programs of CREATE/DELETE/RENAME/SUBSCRIBE/UNSUBSCRIBE/LIST/LSUB/STATUS/SELECT/APPEND over hierarchical names built from a hostile part alphabet (wildcards, quote, '
         'backslash, CR, LF, TAB, non-ASCII, &, INBOX case variants, ., .., empty parts) and 34 patterns x 3 references, on dict, maildir(++), maildir(fs); existence re-established by '
